@@ -104,7 +104,7 @@ func selectedIDs(ids []keystore.ExportID) string {
 
 // Run is the C18 monitor.
 func Run(r *ev.Run) {
-	r.Rule = "cases = keystore format {v1 one directory, v1 separate public directory, v2} × source history {fixed: single keys, with poison symmetric key, rotated, rotated poison, rotated+destroyed, odd client ids (a key-kind suffix of the v1 file names inside the id: billing_storage_hmac_node, x_storage_sym_y, next to the plain client billing), odd id with rotated keys; + seeded ones: 1–3 clients (a third of them with one more client with an odd id), 1–3 generations per key kind, destroyed current/rotated keys, poison/log keys} × export selection {--all, --all --private_keys, explicit private ids, explicit public ids} (through KeyBackuper.Export like acra-keys export) × target {empty, holding another client}; plus v2 ExportKeyRings/ImportKeyRings with abort/skip/overwrite delegates on a target holding the same ring; plus per bundle: bit flips of Data (quick: head, tail and a seeded sample; thorough: every bit of bundles ≤ 8 KiB), every bit of the access keys, truncations; plus secret scan of every bundle; plus v1→v2 migration (MigrateV1toV2) of every v1 history; plus the command-level path (quick: 8 of the histories + one large keystore, thorough: all): keys.ExportKeysCommand writes the bundle file and the access-keys file, keys.ImportKeysCommand reads them into an empty keystore of the same format {v1, v1 two directories, v2}, with the two paths REUSED across a chain of exports of different size (all+private, public ids, private ids twice, all, public ids, all+private; then the same paths shared by a v2 and a v1 keystore, which makes the access-keys file shrink and grow) and a fresh pair of paths as control — per step: the files hold the bytes the Exporter returned (no remainder of what they held before), the import succeeds and source and target compare as in the library-level cases; plus the REAL acra-backup binary (built once per run from the repository under test with the gothemis stand-in, run as child processes): --action=export of a v1 keystore {one directory, separate public directory} into a file, the printed backup master key parsed from its log output, --action=import into empty directories of a keystore with another master key, target compared with the source like an --all export, the file scanned for key material, one wrong-key and one modified-file import into a target holding another client (must exit non-zero, storage unchanged). A case is non-trivial when the export produced a bundle and the import (or its rejection) was compared; distinct = (format, history class, selection, target kind, oracle) tuples (command level: the measured history of the two files is the target kind)"
+	r.Rule = "cases = keystore format {v1 one directory, v1 separate public directory, v2} × source history {fixed: single keys, with poison symmetric key, rotated, rotated poison, rotated+destroyed, odd client ids (a key-kind suffix of the v1 file names inside the id: billing_storage_hmac_node, x_storage_sym_y, next to the plain client billing), odd id with rotated keys; + seeded ones: 1–3 clients (a third of them with one more client with an odd id), 1–3 generations per key kind, destroyed current/rotated keys, poison/log keys} × export selection {--all, --all --private_keys, explicit private ids, explicit public ids} (through KeyBackuper.Export like acra-keys export) × target {empty, holding another client}; plus v2 ExportKeyRings/ImportKeyRings with abort/skip/overwrite delegates on a target holding the same ring; plus per bundle: bit flips of Data (quick: head, tail and a seeded sample; thorough: every bit of bundles ≤ 8 KiB), every bit of the access keys, truncations; plus secret scan of every bundle; plus v1→v2 migration (MigrateV1toV2) of every v1 history; plus the command-level path (quick: 8 of the histories + one large keystore, thorough: all): keys.ExportKeysCommand writes the bundle file and the access-keys file, keys.ImportKeysCommand reads them into an empty keystore of the same format {v1, v1 two directories, v2}, with the two paths REUSED across a chain of exports of different size (all+private, public ids, private ids twice, all, public ids, all+private; then the same paths shared by a v2 and a v1 keystore, which makes the access-keys file shrink and grow) and a fresh pair of paths as control — per step: the files hold the bytes the Exporter returned (no remainder of what they held before), the import succeeds and source and target compare as in the library-level cases; plus the REAL acra-backup binary (built once per run from the repository under test with the gothemis stand-in, run as child processes): --action=export of a v1 keystore {one directory, separate public directory} into a file, the printed backup master key parsed from its log output, --action=import into empty directories of a keystore with another master key, target compared with the source like an --all export, the file scanned for key material, one wrong-key and one modified-file import into a target holding another client (must exit non-zero, storage unchanged). plus import into NON-EMPTY targets (quick: 4 of the histories, thorough: all; formats v1, v1 two directories, v2 through KeyBackuper.Export/Import, v1 and v2 through keys.ExportKeysCommand/ImportKeysCommand, and v2 ExportKeyRings/ImportKeyRings {private, public-only} with every conflict policy {nil delegate, abort, skip, overwrite, overwrite/skip alternately, skip/overwrite alternately}): the source is exported, rotates every key kind once, and is exported again; the later bundle of every selection is imported into a target that holds {its own keys for the same clients and key kinds, one generation; the same with rotation history; an import of the EARLIER export; an import of the same bundle; keys of another client only; the earlier export plus own new keys of the first client and poison keys on top plus another client; own rotated keys of the LAST client only} — a successful import must serve every selected key as the source does (current key = the source's, the source's rotated keys readable in the source's order; v1 may keep rotated keys the target had, nothing else), leave everything outside the selection (and key rings the delegate skipped) as it was; a refused import must not change any key the target held. A case is non-trivial when the export produced a bundle and the import (or its rejection) was compared; distinct = (format, history class, selection, target kind, oracle) tuples (command level: the measured history of the two files is the target kind)"
 	r.Assumptions = []string{
 		"crypto library replaced by the pure-Go gothemis stand-in (Secure Cell Seal authenticates every bit of its output; HMAC-SHA256 signatures of v2 containers are Acra's own code)",
 		"filesystem / in-memory back ends only (no Redis); the commands are driven from keys.ExportKeysCommand / keys.ImportKeysCommand on (file handling of key_bundle_file / key_bundle_secret included) with the Exporter/Importer objects Execute() builds; flag parsing, configuration files and opening the keystore from the environment master key are not",
@@ -139,6 +139,10 @@ func Run(r *ev.Run) {
 		{id: idG, pair: 3, sym: 3, hmac: 2}, {id: idD, pair: 2, sym: 3, hmac: 2}, {id: idE, pair: 3, sym: 2, hmac: 2}},
 		poisonPair: 2, poisonSym: 2, logKey: 2}, r.Thorough())
 	m.cmdGuards()
+	// import into NON-EMPTY targets (own keys of the same names, earlier export, same bundle, other clients, mix)
+	neStart := time.Now()
+	m.nonEmptyLayer(hs)
+	r.Extra("non_empty_target_layer_wall_s", time.Since(neStart).Seconds()) // information only
 	// the real acra-backup binary, built from the repository under test and run as child processes
 	m.backupToolLayer(hs, backupBuild)
 	r.Extra("command_level_layer_wall_s", time.Since(cmdStart).Seconds()) // information only
